@@ -1,4 +1,4 @@
-"""Concrete witnesses of the defects D1-D14 (DESIGN.md section 7), runnable against any tree:
+"""Concrete witnesses of the defects D1-D14 (DESIGN.md section 7) and D20 (section 12), runnable against any tree:
    PYTHONPATH=<repo> /venv/bin/python corpus/defects_repro.py      prints one line per defect: REPRODUCES / fixed"""
 import os, sys, tempfile, io, contextlib, warnings
 os.environ["PANOPTICA_CITATION_REMINDER"] = "false"
@@ -141,7 +141,15 @@ def d14():
         st = quiet(Panoptica_Statistic.from_file, str(f))
         report("D14", st.get("g", "m") != [1.0, None], f"values={st.get('g','m')}")
 
-for f in [d1, d2, d3, d4, d5, d6, d7, d8, d9, d10, d11, d12, d13, d14]:
+def d20():
+    # identical squares labelled 2^27+5 (prediction) and 2^27+3 (reference): the pair code passes 2^53 (needs ~0.7 GB for the relabelling table)
+    ref = np.zeros((8, 8), np.uint32); pred = np.zeros((8, 8), np.uint32)
+    ref[1:4, 1:4] = 2 ** 27 + 3; pred[1:4, 1:4] = 2 ** 27 + 5
+    ev = Panoptica_Evaluator(expected_input=InputType.UNMATCHED_INSTANCE, instance_matcher=NaiveThresholdMatching(), verbose=False)
+    r = quiet(ev.evaluate, pred, ref, verbose=False)["ungrouped"][0]
+    report("D20", (r.tp, r.fp, r.fn) != (1, 0, 0), f"tp/fp/fn={(r.tp, r.fp, r.fn)} expected (1, 0, 0)")
+
+for f in [d1, d2, d3, d4, d5, d6, d7, d8, d9, d10, d11, d12, d13, d14, d20]:
     try:
         f()
     except Exception as e:
